@@ -320,8 +320,8 @@ fn check(pred: &Pred, obs: &Obs, cfg: &Cfg) -> Option<(String, String)> {
     let routing = obs.calls.iter().any(|c| matches!(c.kind(), "discover" | "filter" | "select"));
     let status_calls = obs.calls.iter().filter(|c| c.kind() == "status").count();
     let want_status = pred.outs.iter().filter(|e| **e == Exp::StatusResponse).count();
-    if status_calls != want_status {
-        return Some(("status-service-call-count".into(), format!("status service consulted {status_calls} times, expected {want_status}")));
+    if (want_status == 0 && status_calls > 0) || status_calls < want_status {
+        return Some(("status-service-call-count".into(), format!("status service consulted {status_calls} times, {want_status} status responses are due")));
     }
     let auth_calls = obs.calls.iter().filter(|c| c.kind() == "authenticate").count();
     if auth_calls > 0 && !pred.outs.contains(&Exp::LoginSuccess) {
